@@ -307,6 +307,17 @@ def daemon_test(test_filter, env=None, timeout=900, build_timeout=1500):
 def lib_build(build_timeout=1500, profile="dev"):
     """Build the standalone harness crate (path deps on REPO/packet, REPO/table)."""
     hd = os.path.join(ROOT, "harness", "lib")
+    if REPO != "/repo":
+        # a run against another checkout (VERIF_REPO): the path dependencies of the harness package name /repo, so build a
+        # copy of the package whose manifest points at that checkout
+        import shutil
+        cp = os.path.join(TARGET, "libsrc")
+        shutil.rmtree(cp, ignore_errors=True)
+        shutil.copytree(hd, cp, ignore=shutil.ignore_patterns("target"))
+        mf = os.path.join(cp, "Cargo.toml")
+        txt = open(mf).read().replace('"/repo/', '"' + REPO.rstrip("/") + "/")
+        open(mf, "w").write(txt)
+        hd = cp
     e = cargo_env()
     e["CARGO_TARGET_DIR"] = os.path.join(TARGET, "lib")
     e["VERIF_REPO"] = REPO
